@@ -152,6 +152,7 @@ impl<'a> RequirementsResolver<'a> {
 pub struct ExternalRequirementsResolver {
     at_location: Option<Vec<u8>>,
     entry_registers: HashMap<Pid, DwarfRegisterMap>,
+    frame_registers: Option<DwarfRegisterMap>,
 }
 
 impl ExternalRequirementsResolver {
@@ -159,6 +160,16 @@ impl ExternalRequirementsResolver {
         Self {
             at_location: None,
             entry_registers: HashMap::default(),
+            frame_registers: None,
+        }
+    }
+
+    /// Registers of the frame the expression belongs to, already restored by the caller
+    /// (an unwinder evaluating a CFA expression must not unwind again to get them).
+    pub fn with_frame_registers(self, registers: DwarfRegisterMap) -> Self {
+        Self {
+            frame_registers: Some(registers),
+            ..self
         }
     }
 
@@ -256,6 +267,8 @@ impl<'a> ExpressionEvaluator<'a> {
                     // if there is registers dump for functions entry - use it
                     let bytes =
                         if let Some(regs) = resolver.entry_registers.remove(&ecx.pid_on_focus()) {
+                            regs.value(register)?
+                        } else if let Some(regs) = resolver.frame_registers.as_ref() {
                             regs.value(register)?
                         } else {
                             let pid = ecx.pid_on_focus();
